@@ -920,6 +920,24 @@ fn run_selfcheck() -> i32 {
 }
 
 fn main() {
+    // The code under test runs in this process; a stack overflow or abort in it (possible after a
+    // change to the repository) would take the checker down with an arbitrary exit status.  The
+    // outer process only supervises: it re-executes itself with VERIF_C06_INNER=1 and maps
+    // "died on a signal / unknown status" to the harness-error exit code.
+    if std::env::var_os("VERIF_C06_INNER").is_none() {
+        let exe = std::env::current_exe().unwrap();
+        let st = std::process::Command::new(exe)
+            .args(std::env::args().skip(1))
+            .env("VERIF_C06_INNER", "1")
+            .status();
+        match st {
+            Ok(s) if matches!(s.code(), Some(0) | Some(1) | Some(2)) => std::process::exit(s.code().unwrap()),
+            other => {
+                println!("HARNESS-ERROR: the checking process died ({other:?}): a FIRST/FOLLOW computation overflowed the stack or aborted the process. This is not a verdict.");
+                std::process::exit(simcore::EXIT_HARNESS);
+            }
+        }
+    }
     let args: Vec<String> = std::env::args().collect();
     let mut tier = simcore::env_tier();
     let mut replay_file: Option<PathBuf> = None;
